@@ -175,9 +175,15 @@ def render_expected(template: str, lines: List[str]) -> Optional[str]:
     return rest.replace("\1", "".join(body_n.replace("\0", ln) for ln in lines))
 
 
-def end_to_end(blocks: List[Block], omit_empty: bool = False):
-    """omit_empty: a block without dependencies is sent WITHOUT a depends_on key (the key is optional)."""
+def end_to_end(blocks: List[Block], omit_empty: bool = False, other_kinds: List[str] = ()):
+    """omit_empty: a block without dependencies is sent WITHOUT a depends_on key (the key is optional).
+    other_kinds: names for which metadata of OTHER kinds (an inject_code block, a C++ function) is sent under the same name -
+    the names of job-script blocks are their own name space, the job options must not change."""
     md = [{"metadata_type": "add_job_script", "name": n, "script": list(s), **({} if (omit_empty and not d) else {"depends_on": list(d)})} for n, s, d in blocks]
+    for k, n in enumerate(other_kinds):
+        extra = [{"metadata_type": "inject_code", "name": n, "body_includes": [f"fv_{k}.h"]},
+                 {"metadata_type": "add_cpp_function", "name": n, "include_files": [], "arguments": ["x"], "code": ["auto result = x;"], "return_type": "double"}][k % 2]
+        md.insert((k * 3) % (len(md) + 1), extra)
     a = impl.query_ast('ds.Select(lambda e: e.EventInfo("EventInfo").runNumber())', md)
     r = impl.translate("atlas", a)
     impl.reset_globals()
@@ -234,7 +240,7 @@ def check(tier: str, seed: int, t0: float, build: core.BuildStatus) -> int:
             else:
                 oc.traces_validated_against_impl += 1
     # end-to-end traces through the executor and the template
-    n_e2e = 25 if tier == "quick" else 300
+    n_e2e = 45 if tier == "quick" else 300
     template = (core.REPO / "func_adl_xAOD/template/atlas/r21/ATestRun_eljob.py").read_text()
     e2e_ok = 0
     # directed: a block sent twice, dependencies on only one of the copies, next to blocks without a depends_on key - each in
@@ -244,16 +250,37 @@ def check(tier: str, seed: int, t0: float, build: core.BuildStatus) -> int:
                 [("j", ["j=1"], ["x"]), ("x", ["x=1"], []), ("j", ["j=1"], [])],
                 [("solo", ["s=1"], [])],
                 [("a", ["a=1"], []), ("b", ["b=1"], []), ("a", ["a=1"], ["b"]), ("c", ["c=1"], [])]]
+    named = [([("dep", ["d=1"], ["base"]), ("base", ["b=1"], [])], ["base"]),
+             ([("c", ["c=1"], ["b"]), ("b", ["b=1"], ["a"]), ("a", ["a=1"], [])], ["a", "b"]),
+             ([("p", ["p=1"], ["q"]), ("q", ["q=1"], ["p"])], ["p"]),
+             ([("u", ["u=1"], ["nowhere"])], ["nowhere"])]
+    for blocks, others in named:
+        r = end_to_end(blocks, other_kinds=others)
+        oc.evaluations += 1
+        ri = impl_gen(blocks)
+        exp = render_expected(template, ri[1]) if ri[0] == "ok" else None
+        if (ri[0] == "error" and (r[0] != "error" or r[1] != ri[1])) or (ri[0] == "ok" and (r[0] != "ok" or r[1] != exp)):
+            oc.violations.append(core.Violation(
+                key="c15:e2e-other-kinds", what=f"job-script blocks {blocks} next to inject_code / C++ function metadata named {others}: the job options "
+                f"are not those of the blocks alone ({'refusal ' + str(ri[1]) if ri[0] == 'error' else 'lines ' + str(ri[1])} expected)",
+                replay={"kind": "e2e", "blocks": blocks, "other_kinds": others, "executor": r if r[0] == "error" else "ok", "function": ri}))
+        else:
+            e2e_ok += 1
     for i in range(n_e2e + len(directed)):
         blocks = directed[i] if i < len(directed) else gen_random(rng, 5)
-        r = end_to_end(blocks, omit_empty=(i < len(directed) or i % 2 == 0))
+        others: List[str] = []
+        if i >= len(directed) and i % 3 == 0 and blocks:
+            if i % 2:
+                blocks = list(reversed(blocks))  # dependents arrive before what they depend on
+            others = sorted({b[0] for b in blocks if rng.random() < 0.6}) + (["fv_other"] if rng.random() < 0.3 else [])
+        r = end_to_end(blocks, omit_empty=(i < len(directed) or i % 2 == 0), other_kinds=others)
         oc.evaluations += 1
         ri = impl_gen(blocks)
         if ri[0] == "error":
             if r[0] != "error" or r[1] != ri[1]:
                 oc.violations.append(core.Violation(
                     key="c15:e2e-error-lost", what=f"executor accepted job-script metadata that generate_script_block refuses: {blocks}",
-                    replay={"kind": "e2e", "blocks": blocks, "executor": r[:2], "function": ri}))
+                    replay={"kind": "e2e", "blocks": blocks, "other_kinds": others, "executor": r[:2], "function": ri}))
             else:
                 e2e_ok += 1
             continue
@@ -265,7 +292,7 @@ def check(tier: str, seed: int, t0: float, build: core.BuildStatus) -> int:
             got = r[1] if r[0] == "ok" else r
             oc.violations.append(core.Violation(
                 key="c15:e2e-insertion", what=f"rendered ATestRun_eljob.py does not contain the ordered script lines for {blocks}",
-                replay={"kind": "e2e", "blocks": blocks, "expected_lines": ri[1], "rendered": got}))
+                replay={"kind": "e2e", "blocks": blocks, "other_kinds": others, "expected_lines": ri[1], "rendered": got}))
         else:
             e2e_ok += 1
     if model is not None:
@@ -273,7 +300,7 @@ def check(tier: str, seed: int, t0: float, build: core.BuildStatus) -> int:
     oc.distinct_nontrivial = len(distinct)
     oc.rule = (f"corpus ({n_corpus}) + every list of <= {enum_len} blocks over 3 names x 2 scripts x 8 dependency sets ({len(enum_cases)}, exhaustive) "
                f"+ {n_random} random lists of <= {max_blocks} blocks over <= 6 names (70% acyclic-by-construction, duplicates, 4% missing dependency, shared/empty scripts) "
-               f"+ {n_e2e} end-to-end traces through atlas_xaod_executor and the job-options template; non-trivial = at least 2 blocks and one dependency; distinct by value")
+               f"+ {n_e2e} end-to-end traces through atlas_xaod_executor and the job-options template (a third with inject_code / C++ function metadata under the blocks' names); non-trivial = at least 2 blocks and one dependency; distinct by value")
     oc.samples = [cases[n_corpus + len(enum_cases) + i] for i in range(3)] + [enum_cases[-1]]
     oc.extra = {"input_classes": hist, "size_histogram": sizes, "end_to_end_traces_ok": e2e_ok, "model_available": model is not None}
     if not oc.violations and (ps.broken or oc.correspondence_breaks or model is None or core.build_hygiene_cache()):
@@ -293,7 +320,7 @@ def replay(path: str, build: core.BuildStatus) -> int:
         return 1 if ps.broken else 0
     blocks = [(n, list(s), list(d)) for n, s, d in data["blocks"]]
     if data.get("kind") == "e2e":
-        r = end_to_end(blocks)
+        r = end_to_end(blocks, other_kinds=data.get("other_kinds", []))
         ri = impl_gen(blocks)
         print("function:", ri)
         print("executor:", r[0], (r[1][:200] if isinstance(r[1], str) else r[1]))
